@@ -315,3 +315,163 @@ def trial_then_retry(r, a_high, mangle):
         t.stopService()
     E.turn()
     return first + second
+
+
+# ---------------------------------------------------------------------------------------------
+# the block splitter: the REAL Negotiation.dataReceived and switchToBanana with probe phase handlers
+def split_trace(stream, chunks, k):
+    """feed `stream` in `chunks` to a server-side Negotiation that expects k header blocks.
+    Returns (blocks seen by the phase handlers, dead?, bytes handed to the Broker, escaped exception)."""
+    from foolscap.tokens import NegotiationError
+
+    class FakeBroker:
+        def __init__(self, *a, **kw):
+            self.got = b""
+
+        def setTub(self, t):
+            pass
+
+        def makeConnection(self, t):
+            pass
+
+        def dataReceived(self, d):
+            self.got += d
+
+        def connectionLost(self, why):
+            pass
+
+    class FakeTub:
+        keepaliveTimeout = None
+        disconnectTimeout = None
+        _test_options = {}
+
+        def brokerAttached(self, *a):
+            pass
+
+    class CI:
+        def _set_connected(self, x):
+            pass
+
+        def _set_listener_status(self, x):
+            pass
+
+    class Tr:
+        def __init__(self):
+            self.lost = False
+            self.written = b""
+
+        def write(self, d):
+            self.written += d
+
+        def loseConnection(self):
+            self.lost = True
+
+    class Probe(neg.Negotiation):
+        def _got(self, header):
+            self.blocks.append(bytes(header))
+            if header.startswith(b"BAD"):
+                raise NegotiationError("refused by the phase handler")
+            self.receive_phase += 1
+            self.seen += 1
+            if self.seen == self.expect:
+                self.switchToBanana({})
+        handlePLAINTEXTServer = _got
+        handleENCRYPTED = _got
+        handleDECIDING = _got
+
+    p = Probe()
+    p.isClient = False
+    p.blocks, p.seen, p.expect = [], 0, k
+    p.receive_phase = neg.PLAINTEXT + (3 - k)
+    p.tub = FakeTub()
+    p.brokerClass = FakeBroker
+    p.theirTubRef = None
+    p._connectionInfo = CI()
+    p.factory = None
+    p.transport = Tr()
+    brokers = []
+    orig = p.brokerClass
+
+    def mk(*a, **kw):
+        b = FakeBroker()
+        brokers.append(b)
+        return b
+    p.brokerClass = mk
+    pos = 0
+    esc = None
+    for n in chunks:
+        if p.transport.lost:
+            break                      # a real transport delivers nothing after loseConnection
+        d = stream[pos:pos + n]
+        pos += n
+        try:
+            p.dataReceived(d)
+        except Exception as e:
+            esc = "%s: %s" % (type(e).__name__, e)
+            break
+    passed = brokers[0].got if brokers else b""
+    return [list(b) for b in p.blocks], p.transport.lost, list(passed), esc, len(p.buffer) if not p.transport.lost and not brokers else 0, bool(brokers)
+
+
+def splitter(ctx):
+    """streams of header blocks around the 4096-byte limit, BAD blocks, trailing RPC bytes; every chunking must give
+    the same blocks / verdict / passed bytes, and the Coq model must predict them"""
+    r = ctx.rng
+    cases = []
+    T = b"\r\n\r\n"
+    n = ctx.n(70, 2500)
+    for i in range(n):
+        k = r.choice([1, 2, 3])
+        parts = []
+        for j in range(r.choice([k, k, k + 1, max(1, k - 1)])):
+            kind = r.random()
+            if kind < 0.55:
+                body = bytes(r.choice(b"abcXYZ: \r\n") for _ in range(r.choice([0, 1, 5, 40, 300])))
+            elif kind < 0.8:
+                body = b"h" * r.choice([4090, 4092, 4093, 4094, 4095, 4096, 4097, 4099, 4100, 4101, 5000])
+            elif kind < 0.9:
+                body = b"BAD" + b"x" * r.choice([0, 10])
+            else:
+                body = bytes(r.choice(b"\r\n") for _ in range(r.choice([1, 2, 3, 5, 7])))   # CR/LF soup, partial terminators
+            parts.append(body + (T if r.random() < 0.93 else b""))
+        stream = b"".join(parts) + bytes(r.randrange(256) for _ in range(r.choice([0, 0, 3, 50, 5000])))
+        ref = None
+        for cs in chunkings_for(r, stream):
+            blocks, dead, passed, esc, buflen, switched = split_trace(stream, cs, k)
+            ctx.case(["split", list(stream[:64]), len(stream), cs[:50], k], nontrivial=bool(blocks))
+            ctx.hist("split_outcome", "escaped" if esc else "dead" if dead else "switched" if switched else "waiting")
+            if esc:
+                ctx.fail("oracle/malformed-exception", "exception escaped Negotiation.dataReceived: %s (k=%d, chunks %r)" % (esc, k, cs[:20]),
+                         replay=dict(stream=list(stream), chunks=cs, k=k))
+                break
+            obs = (blocks, dead, passed if not dead else [], switched and not dead)
+            if ref is None:
+                ref = obs
+            elif obs != ref:
+                ctx.fail("oracle/packetisation-changes-outcome/splitter", "the negotiation block splitter depends on the chunking: whole stream -> "
+                         "%d blocks, dead=%s, %d bytes passed; chunks %r -> %d blocks, dead=%s, %d bytes passed (k=%d, stream of %d bytes)"
+                         % (len(ref[0]), ref[1], len(ref[2]), cs[:20], len(obs[0]), obs[1], len(obs[2]), k, len(stream)),
+                         replay=dict(stream=list(stream), chunks=cs, k=k))
+                break
+            cases.append((stream, cs, k, obs, buflen))
+    ctx.sample(dict(kind="splitter", k=cases[0][2], stream_len=len(cases[0][0]), chunks=cases[0][1][:10]))
+    return cases
+
+
+def chunkings_for(r, stream):
+    n = len(stream)
+    out = [[n]]
+    if n <= 600:
+        out.append([1] * n)
+    for _ in range(2):
+        cs, left = [], n
+        while left > 0:
+            c = min(left, r.choice([1, 2, 3, 4, 7, 64, 1000, 4095, 4096, 4097, 4100]))
+            cs.append(c)
+            left -= c
+        out.append(cs or [0])
+    # a boundary inside every terminator near the limit
+    for off in (4093, 4094, 4095, 4096, 4097, 4098, 4099):
+        if off < n:
+            out.append([off, n - off])
+    return out
